@@ -151,6 +151,13 @@ def main(argv=None):
     if a.only:
         metas = [m for m in metas if a.only in m.name]
 
+    if hasattr(mod, 'prepare'):
+        try:
+            mod.prepare()
+        except Exception as e:
+            log('HARNESS-ERROR prepare() of %s failed: %r' % (modname, e))
+            return 2
+
     # ---- plug-in gate -------------------------------------------------------------
     budget = 1500 if a.tier == 'quick' else 12000
     gate = gate_cached(budget, a.jobs, log) if any(m.plug for m in metas) else {'deny': [], 'cases': 0, 'patterns': {}, 'skipped': True}
